@@ -612,14 +612,27 @@ def parseWalkArgs (base instr ptr init adds known al callee fwd mem : String) :
       || mb > U64MAX || adds.any (fun a => a.1 > U64MAX) then none else
   some (⟨ia, isz, storedRules irules, adds.map fun (a, t) => (a, storedRules t)⟩, base, ⟨instr, ptr, known, al, callee, mb, mbytes, fwd⟩)
 
+/-! register names of the `stack` cases as byte strings (`fp`, `lr`; sp / ip per architecture) -/
+def nFp : Name := [0x66, 0x70]
+def nLr : Name := [0x6C, 0x72]
+def nEsp : Name := [0x65, 0x73, 0x70]
+def nEip : Name := [0x65, 0x69, 0x70]
+def nRsp : Name := [0x72, 0x73, 0x70]
+def nRip : Name := [0x72, 0x69, 0x70]
+def nSp : Name := [0x73, 0x70]
+def nPc : Name := [0x70, 0x63]
+
 /-- What the per-architecture glue of minidump-unwind (`get_caller_by_cfi`, `get_caller_frame`,
     the stack-pointer test of `walk_stack`) does around `walk_frame`, as far as the `stack` cases
     observe it: the callee's sp must lie in the stack memory; ARM64 strips pointer-authentication
     bits from pc/lr/fp; a caller whose pc is below 4096 or whose sp did not grow is dropped
-    (ARM: an equal sp is allowed for the context frame). -/
+    (ARM: an equal sp is allowed for the context frame).
+    `memory_range()` is `None` for an empty memory and when `base.checked_add(size)` overflows
+    (`base + size > u64::MAX`). `MdProofs.C06Env.stack_entry_eq_walker`: together with `stackFrame`
+    below this is the walker model's in-range test, `get_caller_by_cfi` and epilogue. -/
 def stackGlue (w : Walker) (sp : Nat) (leaf : Bool) (strip : Option UInt64) (r : Option Caller) :
     Option Caller :=
-  if w.mem.isEmpty || w.memBase + w.mem.length - 1 > U64MAX || sp < w.memBase
+  if w.mem.isEmpty || w.memBase + w.mem.length > U64MAX || sp < w.memBase
       || sp > w.memBase + w.mem.length - 1 then none else
   match r with
   | none => none
@@ -628,7 +641,7 @@ def stackGlue (w : Walker) (sp : Nat) (leaf : Bool) (strip : Option UInt64) (r :
       | none => c
       | some m => { cfa := c.cfa, ra := c.ra.map (· &&& m),
                     regs := c.regs.map fun (n, v) =>
-                      if n = nameOf "fp" || n = nameOf "lr" then (n, v &&& m) else (n, v) }
+                      if n = nFp || n = nLr then (n, v &&& m) else (n, v) }
     match c.cfa, c.ra with
     | some cfa, some ra =>
       if ra.toNat < 4096 then none
@@ -637,17 +650,66 @@ def stackGlue (w : Walker) (sp : Nat) (leaf : Bool) (strip : Option UInt64) (r :
     | _, _ => none
 
 /-- stack-pointer and instruction-pointer register names of the `stack` cases' architectures -/
-def spIpNames (arch : String) : Option (Name × Name) :=
-  let a := (stripKey "arch:" arch).getD arch
-  if a == "x86" then some (nameOf "esp", nameOf "eip")
-  else if a == "amd64" then some (nameOf "rsp", nameOf "rip")
-  else if a == "arm64" then some (nameOf "sp", nameOf "pc")
+def spIpOfArch (a : String) : Option (Name × Name) :=
+  if a = "x86" then some (nEsp, nEip)
+  else if a = "amd64" then some (nRsp, nRip)
+  else if a = "arm64" then some (nSp, nPc)
   else none
+
+def spIpNames (arch : String) : Option (Name × Name) :=
+  spIpOfArch ((stripKey "arch:" arch).getD arch)
 
 /-- the caller's register file after `set_cfa(cfa); set_ra(ra)` of `CfiStackWalker`: the two values
     are caller registers like any other (`MdProofs.C06Walk`'s `seedFwd` is this list) -/
 def storeCfaRa (spN ipN : Name) (fwd : List (Name × UInt64)) (cfa ra : UInt64) : List (Name × UInt64) :=
   (ipN, ra) :: eraseName ((spN, cfa) :: eraseName fwd spN) ipN
+
+/-- frame 1 of a `stack` case, from the CFA / return address of the first `walk_frame` and the
+    result `c1` of the second one (CFA and RA stored as caller registers): sp / ip are read raw by
+    the unwinders (a cleared register keeps its last value), reported as `-` when not valid -/
+def stackOf (w : Walker) (spN ipN : Name) (sp : Nat) (leaf : Bool) (strip : Option UInt64)
+    (cfa ra : UInt64) (c1 : Caller) : Option Caller :=
+  let spV := c1.get spN
+  let ipV := c1.get ipN
+  let raw : Caller := { cfa := some (spV.getD cfa), ra := some (ipV.getD ra),
+                        regs := eraseName (eraseName c1.regs spN) ipN }
+  match stackGlue w sp leaf strip (some raw) with
+  | none => none
+  | some c => some { c with cfa := if spV.isSome then c.cfa else none,
+                            ra := if ipV.isSome then c.ra else none }
+
+/-- the `stack` protocol entry as a pure function: `get_caller_by_cfi` needs a valid callee stack
+    pointer; `CfiStackWalker::set_cfa` / `set_ra` store the CFA and the return address IN the
+    stack-pointer and instruction-pointer registers, where a rule labelled with one of them
+    overwrites or clears it — hence the second walk with the two stored as caller registers -/
+def stackFrame (r : CfiRec) (base : Nat) (w : Walker) (spN ipN : Name) (sp : Nat) (leaf : Bool)
+    (strip : Option UInt64) : Option Caller :=
+  if (w.getCallee spN).isNone then none else
+  match walkFrame r base w with
+  | none => none
+  | some c0 =>
+    match c0.cfa, c0.ra with
+    | some cfa, some ra =>
+      match walkFrame r base { w with fwd := storeCfaRa spN ipN w.fwd cfa ra } with
+      | none => none
+      | some c1 => stackOf w spN ipN sp leaf strip cfa ra c1
+    | _, _ => none
+
+/-- the same with the panic sites of the two walks explicit (what the driver runs) -/
+def stackFrameO (r : CfiRec) (base : Nat) (w : Walker) (spN ipN : Name) (sp : Nat) (leaf : Bool)
+    (strip : Option UInt64) : Outcome (Option Caller) :=
+  if (w.getCallee spN).isNone then .ok none else
+  match walkFrameO r base w with
+  | .panic s => .panic s
+  | .ok none => .ok none
+  | .ok (some c0) =>
+    match c0.cfa, c0.ra with
+    | some cfa, some ra =>
+      match walkFrameO r base { w with fwd := storeCfaRa spN ipN w.fwd cfa ra } with
+      | .panic s => .panic s
+      | .ok none => .ok none
+      | .ok (some c1) => .ok (stackOf w spN ipN sp leaf strip cfa ra c1)
+    | _, _ => .ok none
 
 def handle (_engine : String) (args : List String) : String :=
   match args with
@@ -670,29 +732,10 @@ def handle (_engine : String) (args : List String) : String :=
         | none => none
       match strip?, leaf == "0" || leaf == "1", spIpNames _arch with
       | some strip, true, some (spN, ipN) =>
-        match walkFrameO r base w with
+        match stackFrameO r base w spN ipN sp (leaf == "1") strip with
         | .panic _ => "PANIC"
         | .ok none => "nocfi"
-        | .ok (some c0) =>
-          match c0.cfa, c0.ra with
-          | some cfa, some ra =>
-            -- `CfiStackWalker::set_cfa` / `set_ra` store the CFA and the return address IN the
-            -- stack-pointer and instruction-pointer registers, where a rule labelled with one of
-            -- them overwrites or clears it: walk again with the two stored as caller registers
-            match walkFrameO r base { w with fwd := storeCfaRa spN ipN w.fwd cfa ra } with
-            | .panic _ => "PANIC"
-            | .ok none => "nocfi"
-            | .ok (some c1) =>
-              let spV := c1.get spN
-              let ipV := c1.get ipN
-              -- the unwinders read both raw (a cleared register keeps its last value)
-              let raw : Caller := { cfa := some (spV.getD cfa), ra := some (ipV.getD ra),
-                                    regs := eraseName (eraseName c1.regs spN) ipN }
-              match stackGlue w sp (leaf == "1") strip (some raw) with
-              | none => "nocfi"
-              | some c => showCaller { c with cfa := if spV.isSome then c.cfa else none,
-                                              ra := if ipV.isSome then c.ra else none }
-          | _, _ => "nocfi"
+        | .ok (some c) => showCaller c
       | _, _, _ => "bad-op"
     | _, _, _, _ => "bad-op"
   | _ => "bad-op"
